@@ -6,6 +6,8 @@
  *  VERIF_FAIL=<op>:<substr>:<k>:<errno>   fail the k-th (1-based) call of <op> whose path contains <substr>
  *                         ops: read pread write pwrite fsync open rename ftruncate fallocate unlink
  *  VERIF_FAIL_FROM=1    (with VERIF_FAIL) fail the k-th and every later matching call
+ *  VERIF_CORRUPT=<substr>:<k>   silent write fault: the k-th write()/pwrite() on a path containing <substr>
+ *                        stores one flipped bit (first byte) and reports success
  *  VERIF_KILL=<k>:<before|after|mid>      SIGKILL self at the k-th state-changing call
  *                         (mid: for write/pwrite perform half of the write first)
  *  VERIF_NOW=<t>        time()/clock_gettime(CLOCK_REALTIME)/gettimeofday return t
@@ -38,6 +40,8 @@ static long now_fixed;
 static int inited;
 static pthread_mutex_t mu = PTHREAD_MUTEX_INITIALIZER;
 static char countpath[512];
+static char corrupt_sub[256];
+static long corrupt_k, corrupt_cnt;
 
 #define REAL(name) static __typeof__(name) *real_##name; if (!real_##name) real_##name = dlsym(RTLD_NEXT, #name)
 
@@ -69,6 +73,10 @@ static void init(void)
 				if (*q == ':') fail_errno = strtol(q + 1, 0, 10); else fail_errno = EIO; } }
 	}
 	if (getenv("VERIF_FAIL_FROM")) fail_from = 1;
+	if ((e = getenv("VERIF_CORRUPT")) != 0) {
+		const char *q = strrchr(e, ':');
+		if (q && (size_t)(q - e) < sizeof(corrupt_sub)) { memcpy(corrupt_sub, e, q - e); corrupt_sub[q - e] = 0; corrupt_k = strtol(q + 1, 0, 10); }
+	}
 	if ((e = getenv("VERIF_KILL")) != 0) {
 		char *q;
 		kill_k = strtol(e, &q, 10);
@@ -120,6 +128,18 @@ static int want_fail(const char *op, const char *path)
 	if (fail_cnt == fail_k || (fail_from && fail_cnt > fail_k)) { r = 1; ++fired; }
 	pthread_mutex_unlock(&mu);
 	if (r) errno = (int)fail_errno;
+	return r;
+}
+
+/* returns 1 if this write has to be silently corrupted */
+static int want_corrupt(const char *path, size_t n)
+{
+	int r = 0;
+	if (!corrupt_k || !n || !path || !strstr(path, corrupt_sub)) return 0;
+	pthread_mutex_lock(&mu);
+	++corrupt_cnt;
+	if (corrupt_cnt == corrupt_k) { r = 1; ++fired; }
+	pthread_mutex_unlock(&mu);
 	return r;
 }
 
@@ -176,6 +196,12 @@ ssize_t write(int fd, const void *buf, size_t n)
 	if (want_fail("write", p)) { logline("FAIL-write", p, 0, -1, n, -1); return -1; }
 	act = mutating(p);
 	if (act == 2) { r = real_write(fd, buf, n / 2); logline("KILL-mid-write", p, 0, -1, n / 2, r); raise(SIGKILL); }
+	if (want_corrupt(p, n)) {
+		char *tmp = malloc(n);
+		memcpy(tmp, buf, n); tmp[0] ^= 0x04;
+		r = real_write(fd, tmp, n); free(tmp);
+		logline("CORRUPT-write", p, 0, -1, n, r);
+	} else
 	r = real_write(fd, buf, n);
 	logline("write", p, 0, (long long)lseek(fd, 0, SEEK_CUR) - r, n, r);
 	after(act, p);
@@ -194,6 +220,12 @@ ssize_t pwrite64(int fd, const void *buf, size_t n, off64_t off)
 	if (want_fail("pwrite", p)) { logline("FAIL-pwrite", p, 0, off, n, -1); return -1; }
 	act = mutating(p);
 	if (act == 2) { r = real_pwrite64(fd, buf, n / 2, off); logline("KILL-mid-pwrite", p, 0, off, n / 2, r); raise(SIGKILL); }
+	if (want_corrupt(p, n)) {
+		char *tmp = malloc(n);
+		memcpy(tmp, buf, n); tmp[0] ^= 0x04;
+		r = real_pwrite64(fd, tmp, n, off); free(tmp);
+		logline("CORRUPT-pwrite", p, 0, off, n, r);
+	} else
 	r = real_pwrite64(fd, buf, n, off);
 	logline("pwrite", p, 0, off, n, r);
 	after(act, p);
